@@ -59,11 +59,23 @@ def num(k):
 
 def make_script(idx, seed):
     rng = random.Random(f"c30-{seed}-{idx}")
-    kind = idx % 6
+    kind = idx % 8
     if kind == 4:
         return "QF_UF", random_3sat(rng)
     if kind == 5:
         return "QF_RDL/QF_LRA", random_diff(rng)
+    if kind == 6:
+        # short clauses over few atoms in nested levels: clauses satisfied at the base level, variables that lose and regain their clauses
+        logic = LOGICS[(idx // 8) % len(LOGICS)]
+        _, script, _ = gen.clausal_history(logic, rng)
+        return logic, script
+    if kind == 7:
+        # difference constraints over the reals: chains, longer direct edges, cycles of weight zero
+        f = rng.choice([gen.dl_chain, gen.dl_paths, gen.dl_conjunction])
+        _, _, script = f("QF_RDL", rng)
+        if rng.random() < 0.5:
+            script = script.replace("(check-sat)", "(check-sat)\n(push 1)\n(assert (<= (- x0 x1) 0.0))\n(assert (<= (- x1 x0) 0.0))\n(check-sat)\n(pop 1)\n(check-sat)")
+        return "QF_RDL", script
     logic = LOGICS[idx % len(LOGICS)]
     if rng.random() < 0.5:
         _, script, _ = gen.history(logic, rng, big=(idx % 4 == 3))
@@ -214,7 +226,7 @@ def search_lines(trace_path):
 def refine_case(args):
     idx, seed, binary = args
     logic, script = make_script(idx, seed)
-    vec = CDCL_VECTORS[(idx // 6) % len(CDCL_VECTORS)]
+    vec = CDCL_VECTORS[(idx // 8) % len(CDCL_VECTORS)]
     sc = with_options(vec, script)
     tp = common.WORK / f"c30-{os.getpid()}.trace"
     tp.unlink(missing_ok=True)
